@@ -10,18 +10,31 @@ SPEC = {
             "for every e in [-300,300] and 8 mantissas, empty containers at every position, chains of depth 200 (all enumerated, "
             "seed-independent) + seeded random trees (depth <= 6, <= 40 nodes; quick 2000, thorough 100000), each serialised "
             "with all 64 SerializeOption masks and parsed in default mode and, where mask is a subset of FORMAT|SORT_DICT_KEYS, "
-            "strict mode. One evaluation = one (tree, mask, mode) round trip, one copy-monitor run, one assignment onto a pre-loaded destination, or one json.loads comparison. "
+            "strict mode. Size families (sizes enumerated, contents seeded): the laddered quantity takes the values 2^k-1, 2^k, "
+            "2^k+1, 3*2^(k-1) (thorough also 3*2^(k-1)+1) for k from 4 up to the family's top: flat heterogeneous lists "
+            "(2^16+1 quick / 2^19+1 thorough) and homogeneous lists, flat dicts with four key styles (2^15+1 / 2^17+1), dicts "
+            "whose keys share a long all-byte-values prefix, tables (list/dict of lists/dicts, rows x cols up to 2^16 / 2^18 cells), "
+            "a wide list or dict at depth d <= 450 of a chain, a chain of depth 10/120/450 at the first/middle/last index of a "
+            "wide list, lists of chains, strings and keys of 15 .. 2^20+1 (2^22+1) bytes in five content styles, documents whose "
+            "text is exactly 2^k-1, 2^k, 2^k+1 bytes under a rotating mask (k <= 20 / 22; one long string or many small elements), "
+            "nesting depths 1..17, 2^k-1..2^k+1, ... 499, 500, and seeded random trees with log-uniform fan-out. Documents heavier "
+            "than w0 = 128 (512) weight units get a rotating subset of the masks (always one standard mask with default + strict "
+            "parser and the CPython comparison; at least three masks), the others all 64. One evaluation = one (tree, mask, mode) round trip, one copy-monitor run, one assignment onto a pre-loaded destination, or one json.loads comparison. "
             "distinct_nontrivial = distinct classes among: option mask x mode (opt3f:default), generated leaf/key/container shape "
-            "(gen:float:exp+, gen:key:high), copy-monitor mutation kind, assignment destination kind x source kind, CPython comparison per standard mask x root kind.",
+            "(gen:float:exp+, gen:key:high), copy-monitor mutation kind, assignment destination kind x source kind, CPython comparison per standard mask x root kind, "
+            "size family x floor(log2(size)) (size:list:2^16), CPython comparison per size family and per floor(log2(text length)).",
     "level_text": "Exploration: the real code runs on every generated tree with every option mask; the systematic part "
                   "enumerates each byte value, each power-of-two integer boundary and each decimal exponent, the rest is seeded "
-                  "sampling. Values outside the statement (NaN, infinities, denormals) are never generated.",
+                  "sampling. Container breadth, total node count, string/key length, total text length and nesting "
+                  "depth are laddered over every power of two and 3*2^k up to the tops named in the rule (nesting stops at 500 levels: "
+                  "the unchanged parser is recursive and C05 uses the same bound). "
+                  "Values outside the statement (NaN, infinities, denormals) are never generated.",
     "stages": [
-        {"name": "c04", "variant": "asan", "shards": (16, 16), "timeout": (600, 3600)},
+        {"name": "c04", "variant": "asan", "shards": (16, 16), "timeout": (900, 7200)},
         {"kind": "py", "name": "c04-py", "func": "c04:stage"},
     ],
     "min_evaluations": 100000,
-    "min_classes": {"quick": 120, "thorough": 120},
+    "min_classes": {"quick": 300, "thorough": 300},
     "required_classes": ["opt00:default", "opt00:strict", "opt0c:strict", "opt3f:default", "opt01:default", "opt02:default",
                          "opt10:default", "opt20:default", "gen:float:exp+", "gen:float:exp-", "gen:float:plain:integral",
                          "gen:float:exp+:integral-mantissa", "gen:float:negzero", "gen:int:min", "gen:int:max", "gen:string:high",
@@ -33,14 +46,28 @@ SPEC = {
                          "assign:onto-dict-subset-keys:dict", "assign:onto-dict-same-keys:dict", "assign:onto-deep-tree:*",
                          "assign:onto-polluted-same-shape:dict", "assign:onto-polluted-same-shape:list",
                          "assign:onto-previous-tree:*", "py:std:opt00:*", "py:std:opt04:*",
-                         "py:std:opt08:*", "py:std:opt0c:*"],
+                         "py:std:opt08:*", "py:std:opt0c:*",
+                         "size:list:2^12", "size:list:2^13", "size:list:2^16", "size:list-homogeneous:2^13", "size:dict:2^12",
+                         "size:dict:2^15", "size:dict-shared-prefix:2^12", "size:table:list-of-lists:2^16",
+                         "size:table:list-of-dicts:*", "size:table:dict-of-lists:*", "size:table:dict-of-dicts:*",
+                         "size:wide-list-at-depth:2^15", "size:wide-dict-at-depth:2^12", "size:chain-in-wide-list:2^15",
+                         "size:list-of-chains:2^12", "size:string:root:2^20", "size:string:key-and-value:2^20",
+                         "size:string:root:2^15", "size:textlen:pad:2^20", "size:textlen:elements:2^16", "size:textlen:exact",
+                         "size:depth:2^8", "size:depth:2^4", "size:random-wide:2^13", "size:masks:rotating-subset",
+                         "size:masks:all64", "py:family:list", "py:family:dict", "py:family:dict-shared-prefix",
+                         "py:family:table:list-of-lists", "py:family:string:root", "py:family:string:key-and-value",
+                         "py:family:textlen:pad", "py:family:textlen:elements", "py:family:depth",
+                         "py:family:chain-in-wide-list", "py:family:wide-list-at-depth", "py:family:random-wide",
+                         "py:textlen:2^16", "py:textlen:2^20"],
     "exhaustive": {"quick": False, "thorough": False},
     "exhaustive_note": "enumerated completely: all 64 option masks per tree; all 256 byte values as string and as key; "
-                       "2^k-1, 2^k, 2^k+1 and negations for k<64; every decimal exponent -300..300 for 8 mantissas",
+                       "2^k-1, 2^k, 2^k+1 and negations for k<64; every decimal exponent -300..300 for 8 mantissas; the size "
+                       "ladders (2^k-1, 2^k, 2^k+1, 3*2^(k-1)) of every size family up to its top",
     "assumptions": ASSUME_COMMON + [
         "floats are compared at six significant digits (%.5e text of both sides), the precision serialize() keeps; a generated -0.0 / +0.0 must come back with the same sign bit",
         "CPython json.loads is the independent reader; text is mapped latin-1 <-> bytes because phosg writes one \\u00XX escape per byte",
         "NaN, infinities and denormals are outside the statement and are never generated; dictionary key order is not compared",
+        "large documents (size families) run a rotating subset of the 64 masks; nesting is exercised up to 500 levels only (the unchanged recursive parser overflows the stack near 6000)",
         "signed-overflow reports inside parse/serialize of INT64_MIN are recorded (ub_observations), the value oracle decides",
     ],
 }
